@@ -1,23 +1,24 @@
 #!/bin/bash
-# usage: seedtest.sh <seed-id> <worktree> <check> [<check> ...]
-# Confirms a seeded change (patch.diff + demo.py from a sub-agent's scratch worktree): repo tests still pass with
-# it, the demo fails with it and passes without it; then runs the given checks against it.  /repo is restored.
+# usage: seedtest.sh <seed-id> <dir with patch.diff demo.py meta.json> <check> [<check> ...]
+# Confirms a seeded change: repo tests still pass with it, the demo fails with it and passes without it; then runs the
+# given checks against it.  Works in a scratch worktree of /repo (VERIF_REPO points the checks at it), so /repo itself
+# and any background run using it are not disturbed; the worktree is removed afterwards.
 set -u
-id=$1; wt=$2; shift 2
+id=$1; src=$2; shift 2
 dst=/verif/seeded/$id
 mkdir -p $dst
-cp $wt/patch.diff $wt/demo.py $wt/meta.json $dst/ 2>/dev/null
-cd /repo
-if ! git diff --quiet; then echo "REPO DIRTY"; exit 2; fi
-echo "== demo on unchanged tree"; (cd $dst && PYTHONPATH=/repo timeout 300 /venv/bin/python demo.py >/tmp/seed_demo0.out 2>&1; echo "exit $?"; tail -2 /tmp/seed_demo0.out)
-if ! git apply --whitespace=nowarn $dst/patch.diff; then echo "PATCH DOES NOT APPLY"; exit 2; fi
-echo "== repo tests with the change"; env -u STACKSCOPE_VERIF /venv/bin/python -m pytest -q -p no:cacheprovider 2>&1 | tail -1
-echo "== demo with the change"; (cd $dst && PYTHONPATH=/repo timeout 300 /venv/bin/python demo.py >/tmp/seed_demo1.out 2>&1; echo "exit $?"; tail -2 /tmp/seed_demo1.out)
+if [ "$src" != "$dst" ]; then cp $src/patch.diff $src/demo.py $src/meta.json $dst/ 2>/dev/null; fi
+wt=/tmp/seedwt_$$
+git -C /repo worktree add -q --detach $wt HEAD || exit 2
+trap 'git -C /repo worktree remove --force '$wt' 2>/dev/null; git -C /repo worktree prune' EXIT
+echo "== demo on unchanged tree"; (cd $dst && PYTHONPATH=$wt timeout 300 /venv/bin/python demo.py >/tmp/seed_demo0.out 2>&1; echo "exit $?"; tail -1 /tmp/seed_demo0.out | cut -c1-200)
+if ! git -C $wt apply --whitespace=nowarn $dst/patch.diff; then echo "PATCH DOES NOT APPLY"; exit 2; fi
+echo "== repo tests with the change"; (cd $wt && env -u STACKSCOPE_VERIF /venv/bin/python -m pytest -q -p no:cacheprovider 2>&1 | tail -1)
+echo "== demo with the change"; (cd $dst && PYTHONPATH=$wt timeout 300 /venv/bin/python demo.py >/tmp/seed_demo1.out 2>&1; echo "exit $?"; tail -2 /tmp/seed_demo1.out | cut -c1-300)
 cd /verif
 for c in "$@"; do
   echo "== check $c with the change"
-  timeout 1800 ./check $c > /tmp/seed_check_$c.out 2>&1; echo "exit $?"
+  VERIF_REPO=$wt timeout 1800 ./check $c > /tmp/seed_check_$c.out 2>&1; echo "exit $?"
   grep -E "^(VIOLATION|KNOWN-FINDING|OK|MACHINERY)" /tmp/seed_check_$c.out | cut -c1-300
   grep -m2 "detail:" /tmp/seed_check_$c.out | cut -c1-400
 done
-git -C /repo checkout -- . ; git -C /repo status --short | head -3
